@@ -7,7 +7,6 @@ import (
 	"sort"
 	"strings"
 
-	"github.com/awslabs/ar-go-tools/analysis/config"
 	"golang.org/x/tools/go/ssa"
 	"golang.org/x/tools/go/ssa/ssautil"
 	"verif/harness/gen"
@@ -61,7 +60,8 @@ func pkgFunctions(prog *ssa.Program, path string) []*ssa.Function {
 	return fns
 }
 
-func runSkeletons(rep *lib.Report) {
+// skeletonFunctions renders the control-flow skeletons (functions f0, f1, …) for the shared package.
+func skeletonFunctions(rep *lib.Report) (string, map[string]string) {
 	r := lib.Rand("c02-skel")
 	maxExh, nRand, randMax := 3, 250, 12
 	if lib.Thorough() {
@@ -77,10 +77,8 @@ func runSkeletons(rep *lib.Report) {
 		bodies = append(bodies, gen.RandBody(r, 3+r.Intn(randMax), false, 0))
 	}
 	rep.Extra["skeleton_random_bodies"] = nRand
-	dir := lib.WorkDir(prop, "skel")
 	var src strings.Builder
-	src.WriteString(gen.Prelude)
-	src.WriteString("\nfunc main() {}\n")
+	src.WriteString("package main\n")
 	srcs := map[string]string{}
 	for i, b := range bodies {
 		name := fmt.Sprintf("f%d", i)
@@ -88,27 +86,5 @@ func runSkeletons(rep *lib.Report) {
 		srcs[name] = s
 		src.WriteString("\n" + s)
 	}
-	lib.WriteProgram(dir, "vskel", map[string]string{"main.go": src.String()})
-	prog, _, err := lib.LoadSSA(dir, ssa.InstantiateGenerics, false, ".")
-	if err != nil {
-		rep.Fail("harness-load-skel", "generated skeleton program does not load: "+err.Error(), nil, true)
-		return
-	}
-	ts := &config.TaintSpec{}
-	bt := &batch{}
-	nf := 0
-	for i, f := range pkgFunctions(prog, "vskel") {
-		d := newDump(f, ts)
-		hdr, ok := d.cfgLines(fmt.Sprintf("s%d", i))
-		if !ok {
-			continue
-		}
-		nf++
-		bt.header(hdr)
-		addPathQueries(bt, rep, r, d, hdr, srcs[f.Name()])
-	}
-	rep.Extra["skeleton_functions"] = nf
-	m := &mismatchReporter{rep: rep, perKey: map[string]int{}}
-	bt.run(rep, "skel", m.report)
-	rep.Extra["skeleton_mismatches"] = m.total
+	return src.String(), srcs
 }
